@@ -7,11 +7,10 @@ ssize_t nondet_ssize_t(void);
 		VP_HAVOC_Q(g_rq); VP_HAVOC_Q(g_wq); g_rq_addr = nondet_ptr(); g_wq_addr = nondet_ptr(); \
 		g_q_objects = nondet_bool();                \
 		g_cx_member = nondet_bool(); g_cx_wq = nondet_bool(); g_cx_aio = nondet_ptr();        \
-		g_start_ok = nondet_bool(); VP_SZ(g_start_calls); g_start_aio = nondet_ptr(); g_start_fn = nondet_ptr(); g_start_arg = nondet_ptr(); \
+		g_start_ok = nondet_bool();                                                            \
 		vp_sys s0; g_sys = s0;                                                                \
-		VP_SZ(g_sys.calls); VP_SZ(g_sys.n_ok); VP_SZ(g_sys.n_zero); VP_SZ(g_sys.n_intr); VP_SZ(g_sys.n_again); VP_SZ(g_sys.n_err); VP_SZ(g_pops); VP_SZ(g_fin_calls); VP_SZ(g_plat_calls); \
+		VP_SZ(g_sys.calls); VP_SZ(g_sys.n_ok); VP_SZ(g_sys.n_zero); VP_SZ(g_sys.n_intr); VP_SZ(g_sys.n_again); VP_SZ(g_sys.n_err); VP_SZ(g_pops); VP_SZ(g_fin_calls); VP_SZ(g_plat_calls); VP_SZ(g_start_calls); \
 		g_pfd_fd = nondet_int(); VP_SZ(g_arm_calls); VP_SZ(g_pfd_close_calls); VP_SZ(g_pfd_stop_calls); VP_SZ(g_dialcb_calls); \
-		g_arm_events = nondet_unsigned(); g_arm_pfd = nondet_ptr();                           \
 		VP_HAVOC_SYNC();                                                                      \
 	} while (0)
 
@@ -24,4 +23,24 @@ void h_tcp_cancel(void)  { void *c; nni_aio *a; nng_err rv; VP_HAVOC_GHOSTS(); t
 void h_tcp_send(void)    { void *c; nni_aio *a; VP_HAVOC_GHOSTS(); tcp_send(c, a); VP_CANARY(); }
 void h_tcp_recv(void)    { void *c; nni_aio *a; VP_HAVOC_GHOSTS(); tcp_recv(c, a); VP_CANARY(); }
 void h_tcp_cb(void)      { void *c; unsigned ev; VP_HAVOC_GHOSTS(); tcp_cb(c, ev); VP_CANARY(); }
+#endif
+#ifdef VP_M_IPC
+void h_ipc_dowrite(void) { ipc_conn *c; VP_HAVOC_GHOSTS(); ipc_dowrite(c); VP_CANARY(); }
+void h_ipc_doread(void)  { ipc_conn *c; VP_HAVOC_GHOSTS(); ipc_doread(c); VP_CANARY(); }
+void h_ipc_error(void)   { void *c; int err; VP_HAVOC_GHOSTS(); ipc_error(c, err); VP_CANARY(); }
+void h_ipc_close(void)   { void *c; VP_HAVOC_GHOSTS(); ipc_close(c); VP_CANARY(); }
+void h_ipc_cancel(void)  { void *c; nni_aio *a; nng_err rv; VP_HAVOC_GHOSTS(); ipc_cancel(a, c, rv); VP_CANARY(); }
+void h_ipc_send(void)    { void *c; nni_aio *a; VP_HAVOC_GHOSTS(); ipc_send(c, a); VP_CANARY(); }
+void h_ipc_recv(void)    { void *c; nni_aio *a; VP_HAVOC_GHOSTS(); ipc_recv(c, a); VP_CANARY(); }
+void h_ipc_cb(void)      { void *c; unsigned ev; VP_HAVOC_GHOSTS(); ipc_cb(c, ev); VP_CANARY(); }
+#endif
+#ifdef VP_M_SFD
+void h_sfd_dowrite(void) { nni_sfd_conn *c; VP_HAVOC_GHOSTS(); sfd_dowrite(c); VP_CANARY(); }
+void h_sfd_doread(void)  { nni_sfd_conn *c; VP_HAVOC_GHOSTS(); sfd_doread(c); VP_CANARY(); }
+void h_sfd_error(void)   { void *c; int err; VP_HAVOC_GHOSTS(); sfd_error(c, err); VP_CANARY(); }
+void h_sfd_close(void)   { void *c; VP_HAVOC_GHOSTS(); sfd_close(c); VP_CANARY(); }
+void h_sfd_cancel(void)  { void *c; nni_aio *a; nng_err rv; VP_HAVOC_GHOSTS(); sfd_cancel(a, c, rv); VP_CANARY(); }
+void h_sfd_send(void)    { void *c; nni_aio *a; VP_HAVOC_GHOSTS(); sfd_send(c, a); VP_CANARY(); }
+void h_sfd_recv(void)    { void *c; nni_aio *a; VP_HAVOC_GHOSTS(); sfd_recv(c, a); VP_CANARY(); }
+void h_sfd_cb(void)      { void *c; unsigned ev; VP_HAVOC_GHOSTS(); sfd_cb(c, ev); VP_CANARY(); }
 #endif
